@@ -1,18 +1,94 @@
-(* PropsC01.v — C01: Merge follows the selected policy exactly. Statements only. *)
-From Ucfg Require Import Base ParseInt Consts Field Tree PathOps Merge OTree ProofsMerge.
+(* PropsC01.v — C01: Merge follows the selected policy exactly. Statements only; proofs are
+   in ProofsMerge.v and ProofsMergeSpec.v. *)
+From Ucfg Require Import Base ParseInt Consts Field Tree PathOps Merge OTree ProofsMerge ProofsMergeSpec.
+
+(* THE REFINEMENT.  For every source tree x whose nodes are dictionaries or lists with unique
+   keys (any shape, any depth, nil values, empty containers, type changes at the same key),
+   every global policy h, and every destination A of that kind: unpacking the merged config
+   yields exactly the plain-tree merge of the two unpacked operands.
+   ([refines h x] quantifies over all options o with policy h and all destinations.) *)
+Theorem c01_merge_refines_plain_tree_spec : forall h x, wfb x = true -> refines h x.
+Proof. exact merge_refines. Qed.
+Print Assumptions c01_merge_refines_plain_tree_spec.
+
+(* spelled out *)
+Theorem c01_merge_refines_spelled_out : forall h o A B R,
+  m_h o = h -> wf A = true -> wfb B = true ->
+  merge_plain o (Some A) B = Ok R ->
+  strip R = spec_merge h (strip A) (strip B).
+Proof. intros h o A B R Ho WA WB M. exact (merge_refines h B WB o (Some A) R Ho M WA). Qed.
+Print Assumptions c01_merge_refines_spelled_out.
+
+(* What the plain-tree specification says (properties of [spec_merge], i.e. of the
+   observable result by the theorem above): *)
+
+(* B's value wins wherever A is not a container *)
+Theorem c01_b_wins_over_primitive : forall h a b, parts a = None -> spec_merge h a b = b.
+Proof. exact spec_merge_over_primitive. Qed.
+Print Assumptions c01_b_wins_over_primitive.
+
+(* a nil in B leaves a container of A in place *)
+Theorem c01_nil_keeps_container : forall h a,
+  spec_merge h a ONil = match parts a with Some _ => a | None => ONil end.
+Proof. exact spec_merge_nil. Qed.
+Print Assumptions c01_nil_keeps_container.
+
+(* lists: A then B for append, B then A for prepend, B alone for replace *)
+Theorem c01_append : forall la lb, lb <> [] -> spec_merge 3 (OList la) (OList lb) = OList (la ++ lb).
+Proof. exact spec_append. Qed.
+Print Assumptions c01_append.
+
+Theorem c01_prepend : forall la lb, lb <> [] -> spec_merge 4 (OList la) (OList lb) = OList (lb ++ la).
+Proof. exact spec_prepend. Qed.
+Print Assumptions c01_prepend.
+
+Theorem c01_replace : forall h la lb,
+  (h = 2 \/ h = 5)%N -> lb <> [] -> spec_merge h (OList la) (OList lb) = OList lb.
+Proof. exact spec_arr_replace. Qed.
+Print Assumptions c01_replace.
+
+(* append produces a list whose length is the sum of the operands (both orders preserved:
+   it is the concatenation) *)
+Theorem c01_append_length : forall la lb, lb <> [] ->
+  match spec_merge 3 (OList la) (OList lb) with
+  | OList l => List.length l = (List.length la + List.length lb)%nat
+  | _ => False
+  end.
+Proof. exact append_length. Qed.
+Print Assumptions c01_append_length.
+
+(* index-wise merge by default *)
+Theorem c01_default_is_indexwise : forall h la lb i va vb,
+  nth_error la i = Some va -> nth_error lb i = Some vb ->
+  nth_error (szip h la lb) i = Some (spec_merge h va vb).
+Proof. exact szip_nth_both. Qed.
+Print Assumptions c01_default_is_indexwise.
+
+Theorem c01_default_length : forall h la lb,
+  List.length (szip h la lb) = Nat.max (List.length la) (List.length lb).
+Proof. exact szip_length. Qed.
+Print Assumptions c01_default_length.
+
+(* at the level of the model: merging an empty config is the identity on the right *)
+Theorem c01_merge_empty_right : forall o d a, merge_plain o (Some (VSub d a)) empty_cfg = Ok (VSub d a).
+Proof. exact merge_empty_r. Qed.
+Print Assumptions c01_merge_empty_right.
 
 Theorem c01_absent_takes_b : forall o v, merge_plain o None v = Ok v.
 Proof. exact merge_absent. Qed.
 Print Assumptions c01_absent_takes_b.
 
-Theorem c01_b_wins_over_primitive : forall o ov v, to_cfg ov = CVNot -> merge_plain o (Some ov) v = Ok v.
-Proof. exact merge_over_primitive. Qed.
-Print Assumptions c01_b_wins_over_primitive.
-
-Theorem c01_nil_keeps_container : forall o d a, merge_plain o (Some (VSub d a)) VNil = Ok (VSub d a).
-Proof. exact merge_nil_keeps_container. Qed.
-Print Assumptions c01_nil_keeps_container.
-
-Theorem c01_merge_empty_right : forall o d a, merge_plain o (Some (VSub d a)) empty_cfg = Ok (VSub d a).
-Proof. exact merge_empty_r. Qed.
-Print Assumptions c01_merge_empty_right.
+(* Non-vacuity: a three-level example with a type change and a nil, under append. *)
+Example c01_ex :
+  let A := VSub [("a", ("a", VSub [("l", ("l", VSub [] (Some [("0", VUint 1); ("1", VUint 2)])));
+                                   ("p", ("p", VStr "x"))] None));
+                 ("k", ("k", VSub [("z", ("z", VBool true))] None))] None in
+  let B := VSub [("a", ("a", VSub [("l", ("l", VSub [] (Some [("0", VUint 3)])));
+                                   ("p", ("p", VSub [("q", ("q", VInt 0))] None))] None));
+                 ("k", ("k", VNil))] None in
+  wf A = true /\ wfb B = true /\
+  exists R, merge_plain (plain_opts hAppend) (Some A) B = Ok R /\
+            strip R = OMap [("a", OMap [("l", OList [OUint 1; OUint 2; OUint 3]);
+                                        ("p", OMap [("q", OInt 0)])]);
+                            ("k", OMap [("z", OBool true)])].
+Proof. cbn zeta. split; [reflexivity|]. split; [reflexivity|]. eexists. split; vm_compute; reflexivity. Qed.
